@@ -355,19 +355,34 @@ def replay_model(ck, label, name, f, P, date, syms, m, single=False):
         common.spurious("C03", f"{f.__name__} {label} model does not reproduce: rows={rows} -> {res}")
 
 
+def _dates_chunk(ck, dates):
+    """one worker: a list of dates, rule terms de-duplicated within the chunk"""
+    rnd = random.Random(common.SEED)
+    done = set()
+    n = 0
+    for date in dates:
+        P, F = gt.env(date)
+        for name, f in F.items():
+            if gt.is_rule(f):
+                n += 1
+                analyse_rule(ck, name, f, P, date, done, rnd)
+    ck.extra["rule_instances"] = ck.extra.get("rule_instances", 0) + n
+    ck.extra["distinct_rule_terms"] = ck.extra.get("distinct_rule_terms", 0) + len(done)
+
+
 def run(tier):
     ck = common.Check("C03", tier)
     rnd = random.Random(common.SEED)
     done = set()
     dates = date_classes(tier)
     n_rules = 0
-    for date in dates:
-        P, F = gt.env(date)
-        for name, f in F.items():
-            if not gt.is_rule(f):
-                continue
-            n_rules += 1
-            analyse_rule(ck, name, f, P, date, done, rnd)
+    chunks = [dates[i::common.JOBS] for i in range(common.JOBS) if dates[i::common.JOBS]] if len(dates) > 1 else [dates]
+    if len(chunks) == 1:
+        _dates_chunk(ck, chunks[0])
+    else:
+        common.run_parallel(ck, _dates_chunk, chunks)
+    n_rules = ck.extra.get("rule_instances", 0)
+    done = range(ck.extra.get("distinct_rule_terms", 0))
     ck.bounds = {"date_classes": len(dates), "rule_instances": n_rules, "distinct_rule_terms": len(done),
                  "rows": "2 (first row fixes the dtype, second row carries the value)",
                  "range(n) unrolling": f"n <= {R.RANGE_FORK_LIMIT} (stated as assumption in the queries)",
